@@ -394,6 +394,36 @@ def rule_MP8(rep, prog, q):
                 sample={"phi": ph.loc if ph is not None else None})
 
 
+def rule_MP9(rep, prog, q):
+    rid = rep.rule("C03-MP9", "the role of a lane follows its target: a run-time retarget recomputes the role from the NEW target before publishing do_targetq, "
+                   "and activation computes it for objects retargeted while inactive (a stale BASE role makes sync hand-offs stop at the lane without "
+                   "acquiring the serial queue below)", floor=3)
+    name = "_dispatch_lane_inherit_wlh_from_target"
+    fn = prog.fn("_dispatch_lane_legacy_set_target_queue")
+    rep.saw(fn)
+    sts = [st for st in fn.all_insts() if st.op == "store" and "do_targetq" in prog.fields(st)]
+    inh = calls_named(fn, name)
+    if not sts:
+        rep.unknown(rid, "no do_targetq store in _dispatch_lane_legacy_set_target_queue")
+    for st in sts:
+        ok = any(fn.dominates(c, st) and root_ptr(fn, c.ops[0]) == root_ptr(fn, st.d["ptr"]["base"]) and root_ptr(fn, c.ops[1]) == root_ptr(fn, st.ops[0]) for c in inh)
+        rep.require(rid, ok, st.loc, fn.name, "retarget-without-role-update",
+                    "_dispatch_lane_legacy_set_target_queue publishes the new target without first recomputing the lane's role from that same target: after "
+                    "dispatch_set_target_queue(A, serialB) A keeps role BASE, a contended dispatch_sync(A) is woken owning only A and then unlocks B which it "
+                    "never acquired - B runs two items at once", sample={"store": st.loc, "inherit_calls": len(inh)})
+    for fname in ("_dispatch_lane_activate", "_dispatch_lane_create_with_target"):
+        fn = prog.fn(fname)
+        rep.saw(fn)
+        inh = calls_named(fn, name)
+        if fname == "_dispatch_lane_activate":
+            ok = bool(inh) and fn.must_pass(entry_point(fn), inh)[0]
+        else:
+            sts = [st for st in fn.all_insts() if st.op == "store" and "do_targetq" in prog.fields(st)]
+            ok = bool(inh) and bool(sts) and all(root_ptr(fn, c.ops[1]) == root_ptr(fn, st.ops[0]) for c in inh for st in sts)
+        rep.require(rid, ok, fn.file + ":" + str(fn.d.get("line")), fn.name, "role-not-computed:%s" % fname,
+                    "%s does not compute the lane's role from its (final) target on every path" % fname, sample={"fn": fname, "inherit_calls": len(inh)})
+
+
 def run(rep, tier="quick", srcdir=None, only=None):
     prog, units = load(UNITS, tier, srcdir)
     rep.units = units
@@ -416,6 +446,8 @@ def run(rep, tier="quick", srcdir=None, only=None):
         rule_MP7(rep, prog, q)
     if want("C03-MP8"):
         rule_MP8(rep, prog, q)
+    if want("C03-MP9"):
+        rule_MP9(rep, prog, q)
 
 
 MANIFEST = {
